@@ -40,6 +40,16 @@ FIELD_VARIANTS = [
 
 def run(prog: Program, ctx: Ctx) -> None:  # noqa: PLR0912,PLR0915
     it = Interp(prog, max_steps=500_000)
+
+    def _direct_bases(i_, self_):
+        """The hand-built classes of the rows below are single-inheritance chains given by their linearisation: the direct base is its first entry
+        (the multiple-inheritance rows carry `resolved_bases` themselves). Code that walks the bases instead of asking for the MRO is evaluated, not refused."""
+        if "resolved_bases" in self_.attrs:
+            return list(self_.attrs["resolved_bases"])
+        stub_ = i_.stubs.get(f"{M}.Class.mro")
+        return list(stub_(i_, self_))[:1] if stub_ is not None else []
+
+    it.stubs[f"{M}.Class.resolved_bases"] = _direct_bases
     expr_cls = prog.cls(f"{E}.Expr")
     call_cls = prog.cls(f"{E}.ExprCall")
     kw_cls = prog.cls(f"{E}.ExprKeyword")
@@ -279,6 +289,37 @@ def run(prog: Program, ctx: Ctx) -> None:  # noqa: PLR0912,PLR0915
         ctx.ob("R2", f"sequence|{n_pkgs} package(s)|InitVar base then derived", got2 == want2,
                f"Base(x, seed: InitVar, scale: InitVar = 2) processed, then Derived(Base)(y = 0) in {'the same' if n_pkgs == 1 else 'a later'} package: "
                f"synthesised parameter lists {got2}; CPython {want2}", where(opl))
+    # inherited fields come in the order of the MRO (reversed), not of a walk of the bases: where C3 postpones a shared base the two differ.
+    # The classes carry their (resolved) bases as well as the linearisation CPython computes for the same hierarchy, so code that follows either is evaluated.
+    shapes = {
+        "diamond": {"A": [], "B": ["A"], "C": ["A"], "Z": ["B", "C"]},
+        "shared base postponed": {"A": [], "B": [], "D": [], "K1": ["A", "B"], "K3": ["D", "A"], "Z": ["K1", "K3"]},
+        "base listed again behind its subclass": {"A": [], "B": ["A"], "Z": ["B", "A"]},
+    }
+    for sname, shape in shapes.items():
+        src_h = header + "".join(f"@dataclass\nclass {c_}({', '.join(bs_)}):\n    f_{c_.lower()}: int = 0\n" for c_, bs_ in shape.items())
+        want_h = cpython_init(src_h, "Z")
+        ns_h: dict = {}
+        exec(compile("".join(f"class {c_}({', '.join(bs_)}): pass\n" for c_, bs_ in shape.items()), "<hierarchy>", "exec", dont_inherit=True), ns_h)  # noqa: S102 - empty classes synthesised here
+        objs_h: dict[str, Obj] = {}
+        for c_, bs_ in shape.items():
+            o_h = klass(c_, "m", [(f"f_{c_.lower()}", {"value": "0"})], [])
+            o_h.attrs["resolved_bases"] = [objs_h[b_] for b_ in bs_]
+            o_h.attrs["bases"] = list(bs_)
+            objs_h[c_] = o_h
+        for c_, o_h in objs_h.items():
+            o_h.attrs["__mro__"] = [objs_h[k_.__name__] for k_ in ns_h[c_].__mro__[1:-1]]
+        it.stubs[f"{M}.Class.mro"] = lambda _i, self_: list(self_.attrs["__mro__"])
+        captured.clear()
+        it.steps = 0
+        try:
+            it.call(sdi, objs_h["Z"])
+            got_h: object = "no __init__ synthesised" if not captured else [(p.attrs["name"], p.attrs["kind"].name.split(".")[-1], it.truth(it.getattr(p, "required"))) for p in it._iterate(captured[-1])][1:]
+        except Raised as r:
+            got_h = f"raises {r.exc}"
+        rows += 1
+        ctx.ob("R2", f"inherit|field order follows the MRO|{sname}", got_h == want_h,
+               f"{sname}: {'; '.join(f'class {c_}({chr(44).join(bs_)})' for c_, bs_ in shape.items())}, one field each: griffe {got_h}; CPython {want_h}", where(sdi))
     # a property (or cached property) of the subclass named like an inherited field adds nothing to __annotations__: the field stays in the constructor
     src = header + "@dataclass\nclass P:\n    tags: int = 0\n    size: int = 1\n@dataclass\nclass D(P):\n    b: int = 2\n    @property\n    def tags(self) -> int: return 0\n"
     want7 = cpython_init(src, "D")
